@@ -1506,11 +1506,11 @@ def _ref_bodies():
 def _pristine(program, modname):
     """A fresh parse of the module (the working tree of a Module is edited
     by _nest_new_helpers and by rules that unroll loops)."""
-    key = (id(program), modname)
-    if key not in _PRISTINE:
+    cache = program.__dict__.setdefault("_pristine_modules", {})
+    if modname not in cache:
         m = program.modules[modname]
-        _PRISTINE[key] = Module(modname, m.path, m.src)
-    return _PRISTINE[key]
+        cache[modname] = Module(modname, m.path, m.src)
+    return cache[modname]
 
 
 def rewrite_distance(program, modname, qualname, _depth=0, _seen=None):
